@@ -41,7 +41,7 @@ def fresh_copy(hc):
 
 def gen_query(rng, good):
     from diffcalc.hkl.geometry import Position
-    k = rng.choices(["gp-good", "gp-zero", "gp-far", "gp-other", "gp-along", "hkl", "va", "edit-pos", "str", "mutate"], weights=[30, 8, 8, 14, 10, 12, 12, 10, 6, 9])[0]
+    k = rng.choices(["gp-good", "gp-zero", "gp-far", "gp-other", "gp-along", "hkl", "va", "edit-pos", "str", "mutate", "va-returned"], weights=[30, 8, 8, 14, 10, 12, 12, 10, 6, 9, 8])[0]
     return k
 
 
@@ -71,6 +71,7 @@ def run_history(ctx, tr, length):
     along_surf = tuple(float(x) for x in np.linalg.solve(np.asarray(ub2.UB, float), PL.vectors(ub2)[1]) * rng.choice([2.0, 3.0]))
     shared_pos = Position(*[rng.uniform(-170, 170) for _ in range(6)])
     first_answers = {}
+    returned = []
     kinds = set()
     complaints = []
     n = 0
@@ -107,8 +108,18 @@ def run_history(ctx, tr, length):
             continue
         before = snapshot(hc)
         key, thunk = None, None
-        if k == "gp-good":
-            key = ("gp", hkl); thunk = lambda h=hc: S.run_impl("full", h, hkl, 1.0)
+        if k == "va-returned" and not returned:
+            k = "gp-good"
+        if k == "va-returned":
+            # a Position that get_position handed out earlier and that the caller has since moved in place: the angles it carries NOW count
+            rp = rng.choice(returned)[0]
+            key = ("va", tuple(rp.astuple))
+            def thunk(h=hc, rp=rp):
+                with quiet():
+                    va = h.get_virtual_angles(rp)
+                return ("ok-v", tuple((kk, None if math.isnan(v) else round(v, 9)) for kk, v in sorted(va.items())))
+        elif k == "gp-good":
+            key = ("gp", hkl); thunk = lambda h=hc: S.run_impl("full", h, hkl, 1.0, keep=returned)
         elif k == "gp-zero":
             key = ("gp", (0.0, 0.0, 0.0)); thunk = lambda h=hc: S.run_impl("full", h, (0.0, 0.0, 0.0), 1.0)
         elif k == "gp-far":
